@@ -266,6 +266,68 @@ func c04(c *Ctx) {
 	}
 	c.RunEvalCases()
 
+	// coefficient lengths: every pair of lengths 1..20 x leading-digit patterns (all nines, a one followed
+	// by zeros, the digits of 2^63-1 and of 2^64, random digits) x exponent offsets: sums, differences and
+	// products whose exact coefficient has 18, 19, 20 digits lie on either side of the machine-word limits
+	{
+		r := c.Rng
+		pat := func(kind, n int) *big.Int {
+			var t string
+			switch kind {
+			case 0:
+				t = strings.Repeat("9", n)
+			case 1:
+				t = "1" + strings.Repeat("0", n-1)
+			case 2:
+				t = ("9223372036854775807" + strings.Repeat("9", n))[:n]
+			case 3:
+				t = ("18446744073709551615" + strings.Repeat("9", n))[:n]
+			default:
+				var sb strings.Builder
+				sb.WriteByte(byte('1' + r.Intn(9)))
+				for i := 1; i < n; i++ {
+					sb.WriteByte(byte('0' + r.Intn(10)))
+				}
+				t = sb.String()
+			}
+			z, _ := new(big.Int).SetString(t, 10)
+			return z
+		}
+		offs := []int64{0, 0, -1, -5, -18, 3}
+		maxL := 20
+		for la := 1; la <= maxL; la++ {
+			for lb := 1; lb <= maxL; lb++ {
+				rounds := c.N(3, 12)
+				for k := 0; k < rounds; k++ {
+					ca, cb := pat(r.Intn(5), la), pat(r.Intn(5), lb)
+					if k == 0 {
+						ca, cb = pat(0, la), pat(0, lb) // the all-nines pair of every pair of lengths, always
+					}
+					if r.Intn(3) == 0 {
+						ca.Neg(ca)
+					}
+					if r.Intn(3) == 0 {
+						cb.Neg(cb)
+					}
+					ea := int64(r.Intn(7) - 3)
+					eb := ea + offs[r.Intn(len(offs))]
+					ad, bd := &D{Tag: "d", Coef: ca, Exp: ea}, &D{Tag: "d", Coef: cb, Exp: eb}
+					a, b := ratCE(ca, ea), ratCE(cb, eb)
+					doc := h.Obj("x", ad, "y", bd)
+					for _, fn := range bins[:3] {
+						addBin(fn, ad, "", a, "$.y", b, doc, "coefficient-lengths:"+fn.name)
+					}
+					fn := bins[3] // Divide for every length; Modulo = a - b*trunc(a/b) is claimed (and proved: C04_mod_trunc_15, refuted beyond) for <= 15 digits
+					if la <= 15 && lb <= 15 && r.Intn(2) == 0 {
+						fn = bins[4]
+					}
+					addBin(fn, ad, "", a, "$.y", b, doc, "coefficient-lengths:"+fn.name)
+				}
+			}
+		}
+		c.RunEvalCases()
+	}
+
 	// random decimals with <= 15 significant digits, exponents -12..12
 	nRand := c.N(15000, 300000)
 	randDec := func() (string, *big.Rat, *D) {
